@@ -29,7 +29,8 @@ Construct ==
        \cup Flag(Ev.panic = "", "d_constructor_panicked")
        \cup Flag(Ev.failwanted <=> Ev.err # "", "x_constructor_outcome_not_as_provoked")
        \* a constructor that returns an error leaves nothing running
-       \cup Flag(Ev.err # "" => Len(Ev.left) = 0, "d_failed_constructor_left_goroutines")])
+       \cup Flag(Ev.err # "" => Len(Ev.left) = 0, "d_failed_constructor_left_goroutines")
+       \cup Flag(Ev.err # "" => Ev.subsleft = 0, "d_failed_constructor_left_a_subscription")])
 
 OpStart == Is("OpStart") /\ Step([s EXCEPT !.ops = @ \cup {Ev.op}, !.everOp = TRUE])
 OpEnd == /\ Is("OpEnd")
@@ -52,7 +53,8 @@ Quiesce ==
        \cup Flag(s.closes = {} /\ \A x \in Range(Ev.pending) : SubSeq(x, 1, 2) = "op", "a_close_did_not_return")
        \cup Flag(s.ops = {} /\ \A x \in Range(Ev.pending) : SubSeq(x, 1, 2) # "op", "c_operation_blocked_for_ever_by_shutdown")
        \cup Flag(s.closed >= s.c.ncloses, "b_repeated_close_did_not_return")
-       \cup Flag(Len(Ev.left) = 0, "a_goroutines_left_after_close")])
+       \cup Flag(Len(Ev.left) = 0, "a_goroutines_left_after_close")
+       \cup Flag((s.closes = {} /\ Len(Ev.pending) = 0) => Ev.subsleft = 0, "a_subscription_left_after_close")])
 
 Other == Is("End") /\ Step(s)
 Stuck == Is("Stuck") /\ Step([s EXCEPT !.viol = @ \cup {<<"C14", "a_shutdown_wedged_or_crashed">>}])
